@@ -650,6 +650,70 @@ Section BackupProofs.
   Proof.
     intros maxlen nb b docs raises Hb. exact (cb_run_buffering maxlen nb b docs raises [] Hb).
   Qed.
+  (* the fast evaluator is the model *)
+  Definition cbf_rel (c : cb_state D) (f : cbf_state D) : Prop :=
+    cbf_rev D f = rev (cb_buffer D c) /\ cbf_len D f = N.of_nat (length (cb_buffer D c)) /\ cbf_push D f = cb_push D c.
+
+  Lemma rev_tl_removelast : forall (l : list D), rev (tl l) = removelast (rev l).
+  Proof.
+    intros [|x l]; [reflexivity|]. simpl. rewrite removelast_app by discriminate. simpl. now rewrite app_nil_r.
+  Qed.
+
+  Lemma cbf_call_eq : forall maxlen nb c f d raised, cbf_rel c f ->
+    cbf_rel (fst (cb_call D maxlen nb c d raised)) (fst (cbf_call D maxlen nb f d raised)) /\
+    snd (cbf_call D maxlen nb f d raised) = snd (cb_call D maxlen nb c d raised).
+  Proof.
+    intros maxlen nb c f d raised (R1 & R2 & R3). unfold cb_call, cbf_call, dq_append, dq_append_fast.
+    rewrite R1, R2, R3.
+    destruct (N.eqb maxlen 0) eqn:E0.
+    - destruct (cb_push D c || raised); simpl; repeat split; reflexivity.
+    - destruct (N.ltb (N.of_nat (length (cb_buffer D c))) maxlen) eqn:E1.
+      + destruct (cb_push D c || raised); simpl.
+        * repeat split; try reflexivity. now rewrite rev_involutive.
+        * repeat split; simpl; try reflexivity.
+          -- now rewrite rev_app_distr.
+          -- rewrite app_length. simpl. lia.
+      + destruct (cb_push D c || raised); simpl.
+        * repeat split; try reflexivity. simpl rev. now rewrite <- rev_tl_removelast, rev_involutive.
+        * repeat split; simpl; try reflexivity.
+          -- rewrite rev_app_distr. simpl. now rewrite rev_tl_removelast.
+          -- rewrite app_length. simpl. apply N.ltb_ge in E1. apply N.eqb_neq in E0.
+             destruct (cb_buffer D c); simpl in *; lia.
+  Qed.
+
+  Theorem cb_run_fast_eq : forall maxlen nb docs raises c f, cbf_rel c f ->
+    snd (cbf_run D maxlen nb f docs raises) = snd (cb_run D maxlen nb c docs raises).
+  Proof.
+    intros maxlen nb docs; induction docs as [|d docs IH]; intros raises c f R; [reflexivity|].
+    simpl. destruct (cbf_call_eq maxlen nb c f d (hd false raises) R) as [R' E].
+    destruct (cb_call D maxlen nb c d (hd false raises)) as [c1 l1].
+    destruct (cbf_call D maxlen nb f d (hd false raises)) as [f1 k1]. simpl in *. subst k1.
+    specialize (IH (tl raises) c1 f1 R').
+    destruct (cb_run D maxlen nb c1 docs (tl raises)) as [c2 l2].
+    destruct (cbf_run D maxlen nb f1 docs (tl raises)) as [f2 k2]. simpl in *. now subst.
+  Qed.
+
+  Lemma first_failure_lt : forall n raises f, first_failure n raises = Some f -> f < n.
+  Proof.
+    induction n as [|n IH]; intros raises f E; simpl in E; [discriminate|].
+    destruct (hd false raises); [inversion E; lia|].
+    destruct (first_failure n (tl raises)) as [g|] eqn:G; [|discriminate].
+    inversion E; subst. specialize (IH _ _ G). lia.
+  Qed.
+
+  (* the form that names what the property needs from the buffer bound: it must cover the run *)
+  Theorem backup_whole_run : forall maxlen nb b (docs : list D) raises, b < nb ->
+    (N.of_nat (length docs) <= maxlen)%N ->
+    let log := snd (cb_run D maxlen nb (cb0 D) docs raises) in
+    match first_failure (length docs) raises with
+    | None => received_by D b log = []
+    | Some _ => received_by D b log = docs
+    end.
+  Proof.
+    intros maxlen nb b docs raises Hb Hm. assert (T := backup_exactly_once_in_order maxlen nb b docs raises Hb).
+    cbv zeta in *. destruct (first_failure (length docs) raises) as [f|] eqn:E; [|exact T].
+    apply T. apply first_failure_lt in E. lia.
+  Qed.
 End BackupProofs.
 
 (* ================================================================== the caller's documents read back unchanged *)
